@@ -250,6 +250,15 @@ def encode_case(case):
         elif kind == "prefixes":
             b = step[1].encode()
             out += ("PREFIXES %d\n" % len(b)).encode() + b + b"\n"
+        elif kind == "keep":
+            b = step[1].encode()
+            out += ("KEEP %d\n" % len(b)).encode() + b + b"\n"
+        elif kind == "exec":
+            out += ("EXEC %d\n" % step[1]).encode()
+        elif kind == "native":
+            out += ("NATIVE %s %s\n" % (step[1], step[2])).encode()
+        elif kind == "getg":
+            out += ("GETG %s %s\n" % (step[1], step[2])).encode()
         elif kind == "reset":
             out += b"RESET\n"
         elif kind == "stats":
